@@ -47,9 +47,16 @@ def to_ticks(t, tick=TICK):
     `tick` = ticks per second of the scenario (a power of two; 1024 by default, 2^40 in the fine regime
     where one tick is 9e-13 s and 'one tick in the past' is far below any 1e-9 tolerance)."""
     try:
+        if isinstance(t, int) and not isinstance(t, bool) and tick == 1:
+            return t                      # integer regime: times are Python ints, exact at any magnitude
         k = t * tick
         if k == int(k):
             return int(k)
+        # a tick that is not a power of two (decimal regime, 10 ticks per second): t is the tick k exactly
+        # when it is the very float the single division k / tick produces
+        r = round(k)
+        if r / tick == t:
+            return r
     except (OverflowError, ValueError, TypeError):
         pass
     return repr(t)
